@@ -5,15 +5,11 @@
 //!   gv worker <ID> --leg L --tier T --seed S --index I --workers N --out F [--journal J]
 //!   gv replay <ID> <file>               run one saved case
 
-mod gen;
-mod model;
-mod probe;
-mod props;
-mod reprs;
-mod runner;
-mod sys;
-
-use runner::{Prop, Tier, WorkerArgs};
+use gv::{
+    props, runner,
+    runner::{Prop, Tier, WorkerArgs},
+    sys,
+};
 
 #[global_allocator]
 static ALLOC: sys::Counting = sys::Counting;
@@ -89,6 +85,24 @@ fn main() {
             dispatch!(args[2].as_str(), worker_p(&a))
         }
         Some("replay") if args.len() >= 4 => dispatch!(args[2].as_str(), replay_p(&args[3])),
+        Some("decode-fuzz") if args.len() >= 4 => {
+            // bytes of a libFuzzer input -> the JSON case the fuzz target executed
+            let data = std::fs::read(&args[3]).unwrap_or_default();
+            let json = match args[2].as_str() {
+                "C13" => runner::to_json(&props::c13::Case {
+                    program: props::c13::program_from_bytes(&data),
+                    leak: false,
+                }),
+                "C01" => runner::to_json(&props::c01::case_from_bytes(&data)),
+                _ => String::new(),
+            };
+            if json.is_empty() {
+                3
+            } else {
+                println!("{{\"note\":\"decoded libFuzzer input {}\",\"case\":{json}}}", args[3]);
+                0
+            }
+        }
         _ => {
             eprintln!("usage: gv run <ID> quick|thorough | gv replay <ID> <file>");
             3
